@@ -101,9 +101,10 @@ fn scenario(n: usize) {
 }
 
 //@ ob: C16.O2z
-//@ tier: thorough
-//@ cap: 1500
-//@ mem: 28
+//@ tier: quick
+//@ cap: 800
+//@ rss: 1.6
+//@ time: 58
 //@ standins: tracing lru vcoll flume
 //@ desc: async twin: AsyncDht::get_mutable_most_recent returns None when nothing was delivered (n = 0)
 //@ bounds: n = 0 delivered items; future polled with a no-op waker (Ready at the first poll: sender dropped); unwind 5
@@ -118,9 +119,10 @@ fn c16_o2z_async_most_recent_n0() {
 }
 
 //@ ob: C16.O2a
-//@ tier: thorough
-//@ cap: 1500
-//@ mem: 28
+//@ tier: quick
+//@ cap: 800
+//@ rss: 2.0
+//@ time: 81
 //@ standins: tracing lru vcoll flume
 //@ desc: async twin: AsyncDht::get_mutable_most_recent returns the single item delivered (n = 1), whatever its seq (including negative seqs and seq 0 with an empty-looking value)
 //@ bounds: n = 1 delivered item (seq full i64, 1-byte value); future polled with a no-op waker (Ready at the first poll: all items queued, sender dropped); unwind 5
@@ -135,9 +137,10 @@ fn c16_o2a_async_most_recent_n1() {
 }
 
 //@ ob: C16.O2b
-//@ tier: thorough
-//@ cap: 2400
-//@ mem: 28
+//@ tier: quick
+//@ cap: 800
+//@ rss: 2.2
+//@ time: 121
 //@ standins: tracing lru vcoll flume
 //@ desc: async twin, two delivered items in either order (symbolic seqs and values): the result has the maximum seq, ties broken by the greatest value
 //@ bounds: n = 2; seq full i64, values 1 byte; unwind 5
@@ -152,9 +155,10 @@ fn c16_o2b_async_most_recent_n2() {
 }
 
 //@ ob: C16.O2c
-//@ tier: thorough
-//@ cap: 3000
-//@ mem: 40
+//@ tier: quick
+//@ cap: 800
+//@ rss: 4.1
+//@ time: 175
 //@ standins: tracing lru vcoll flume
 //@ desc: async twin, three delivered items: maximum seq, ties by greatest value
 //@ bounds: n = 3; unwind 9
